@@ -50,9 +50,26 @@ TEXT['C10'] = dict(
          'FluxSurfaceAdvection._getLagrangePts (stencil, weights, theta shifts) and step(); listed as uncovered in the evidence.',
     technique='loop invariants with frame clauses over 3-index arrays, modular function-parameter contracts, z3')
 
+BOUNDED_NOTE = ('Bounded: the real classes run on a thread-per-rank simulated MPI (vf/shim) that checks collective matching; '
+                'the bound is stated in the evidence; nothing here is counted as proved. ')
+TEXT['C01'] = dict(
+    category='other',
+    text='Bounded stand-in only so far: the real LayoutHandler.transpose is executed on a simulated MPI for every ordered pair of '
+         'layouts of production and seeded random layout sets (ranks 2-4, uneven extents, n==p, grids with leading extent 1, '
+         'with/without buffer, float/complex/int) and every rank block is compared with the global field; source-intact is checked. '
+         'The deductive view-model proof of the transpose helpers is not built yet, hence level other.',
+    note=BOUNDED_NOTE + 'Found and fixed a genuine defect this way (fix: 83dc206).',
+    technique='bounded run-time checking of the real code under simulated MPI (stand-in for the planned view-model proof)')
+TEXT['C02'] = dict(
+    category='other',
+    text='Bounded stand-in: exhaustive check of the block decomposition for all 1<=p<=n<=N and of every Grid accessor / buffer size '
+         'on production and random process grids. The deductive proof of Layout.__init__ is being added.',
+    note=BOUNDED_NOTE + 'Found and fixed Grid.getEta (fix: 8880526).',
+    technique='bounded run-time checking (exhaustive small box) of the real classes')
+
 NOT_APPLICABLE = {
     'C19': 'compares compiled pyccel artefacts with their Python source: translation validation; no deductive verifier for the '
            'generated Fortran/C is installed (DESIGN.md, C19)',
 }
-for _p in ['C01', 'C02', 'C03', 'C04', 'C05', 'C06', 'C08', 'C09', 'C12', 'C13', 'C14', 'C15', 'C17', 'C18']:
+for _p in ['C03', 'C04', 'C05', 'C06', 'C08', 'C09', 'C12', 'C13', 'C14', 'C15', 'C17', 'C18']:
     NOT_APPLICABLE[_p] = 'check not built yet in this session (planned, see DESIGN.md); not claimed until its contracts discharge'
